@@ -48,6 +48,7 @@ type JobRec struct {
 	Outs       interface{} `json:"outs,omitempty"`
 	Outcome    string `json:"outcome,omitempty"` // complete, failed:<kind>, killed, aborted
 	Fault      string `json:"fault,omitempty"`
+	Stale      bool   `json:"stale,omitempty"` // an attempt which went silent, was given up by mrp, and came back
 	Threads    float64 `json:"threads,omitempty"`
 	MemGB      float64 `json:"mem_gb,omitempty"`
 	JobType    string  `json:"job_type,omitempty"`
@@ -212,6 +213,11 @@ func (r *Run) jobMain(j *JobRec) int {
 	j.md = md
 	fault := r.jobFault(j)
 	j.Fault = fault
+	stale := strings.HasPrefix(fault, "stale-") && j.Monitor
+	if strings.HasPrefix(fault, "stale-") && !stale {
+		fault = ""
+	}
+	fc := r.FCfg
 	st := r.Prog.Stage(j.Stage)
 	if st == nil {
 		r.violate("SIM", "stub", "job for unknown stage "+j.Stage)
@@ -246,7 +252,7 @@ func (r *Run) jobMain(j *JobRec) int {
 	}
 	md.UpdateJournal(core.LogFile)
 	j.check()
-	if j.Monitor {
+	if j.Monitor && !stale {
 		r.startHeartbeat(j, md)
 	}
 
@@ -323,6 +329,44 @@ func (r *Run) jobMain(j *JobRec) int {
 	}
 	r.extraFiles(j, fargs)
 
+	if stale {
+		// The attempt goes silent (no heartbeat, no progress) until mrp has given
+		// up on it (heartbeat timeout) and has retried the job under a new
+		// uniquifier, then comes back and finishes in
+		// one of several ways.  Nothing it writes from now on may be attributed to
+		// the attempt that replaced it (C11).
+		gaveUp := false
+		for i := 0; i < 45 && !gaveUp; i++ {
+			vrt.Sleep(2 * time.Minute)
+			j.check()
+			// given up AND replaced: the retry removes the attempt's directory and
+			// points the job's name at a directory with a new uniquifier (until
+			// then an error the attempt reports is still its own)
+			if _, err := os.Stat(j.MetaPath); err != nil {
+				gaveUp = true
+			} else if t, err := os.Readlink(path.Join(path.Dir(j.MetaPath), j.Leaf)); err == nil && t != path.Base(j.MetaPath) {
+				gaveUp = true
+			}
+		}
+		if !gaveUp {
+			// mrp never gave up on it: it is just a slow job, and what it writes counts
+			r.Faults["stale-attempt-never-given-up"]++
+			fault = ""
+		} else {
+			j.Stale = true
+			extra := hash64(r.FCfg.Salt, j.Key(), "stale-extra") % 4
+			for i := uint64(0); i < extra; i++ {
+				vrt.Sleep(30 * time.Second)
+				j.check()
+			}
+			r.Faults["stale-attempt-returned:"+fault]++
+			cp := *r.FCfg
+			cp.Salt += "|stale"
+			fc = &cp
+			fault = map[string]string{"stale-complete": "", "stale-exit": "exit-nonzero", "stale-errors": "stage-error", "stale-die": "die-signal"}[fault]
+		}
+	}
+
 	switch fault {
 	case "stage-error":
 		return r.jobFail(j, md, "errors", "Traceback: simulated stage failure in "+j.Stage)
@@ -343,7 +387,7 @@ func (r *Run) jobMain(j *JobRec) int {
 
 	switch j.Phase {
 	case "split":
-		chunks := FSplit(r.Prog, r.FCfg, st, fargs)
+		chunks := FSplit(r.Prog, fc, st, fargs)
 		defs := make([]map[string]interface{}, len(chunks))
 		for i, c := range chunks {
 			d := map[string]interface{}{}
@@ -385,7 +429,7 @@ func (r *Run) jobMain(j *JobRec) int {
 		if st.Split {
 			outsDecl = append(outsDecl, st.ChunkOuts...)
 		}
-		outs := FOuts(r.Prog, r.FCfg, st.Name, "main", fargs, outsDecl, files)
+		outs := FOuts(r.Prog, fc, st.Name, "main", fargs, outsDecl, files)
 		j.Outs = outs
 		r.writeOuts(j, md, outs, outsDecl, fault)
 	case "join":
@@ -397,7 +441,7 @@ func (r *Run) jobMain(j *JobRec) int {
 		}
 		r.checkArgFiles(j, j.ChunkOuts)
 		jargs := map[string]interface{}{"args": fargs, "chunk_defs": stripDunderList(j.ChunkDefs), "chunk_outs": r.normFiles(j.ChunkOuts)}
-		outs := FOuts(r.Prog, r.FCfg, st.Name, "join", jargs, st.Outs, files)
+		outs := FOuts(r.Prog, fc, st.Name, "join", jargs, st.Outs, files)
 		j.Outs = outs
 		r.writeOuts(j, md, outs, st.Outs, fault)
 	default:
